@@ -229,6 +229,11 @@ func gateBody(r *Rng, st *Std, kind string, rq *ReqSpec, ge *gateReq) {
 			ge.Body = "emptyobject"
 			body["object"] = []interface{}{}
 		}
+	case 9:
+		if kind == "postInbox" {
+			ge.Body = "actorodd"
+			body["actor"] = Pick(r, []interface{}{[]interface{}{}, J{"type": "Person", "name": "anonymous"}, []interface{}{J{"type": "Person"}, J{"type": "Service", "name": "x"}}})
+		}
 	case 8:
 		if ge.Type == "Add" || ge.Type == "Remove" {
 			ge.Body = "notarget"
@@ -390,6 +395,8 @@ func oracleGate(c *DriveCtx, res *Result) {
 				allow([]int{400}, true)
 			case "idempty", "idrelative":
 				allow([]int{400, 200, 403}, true)
+			case "actorodd":
+				allow([]int{okStatus, 400, 403}, true) // no usable actor: refused or processed, but never without the block check (trace monitor)
 			case "noobject", "emptyobject", "notarget":
 				if inbox && ge.Blocked == "yes" {
 					allow([]int{403}, false)
